@@ -174,7 +174,8 @@ func (w *world) enabled(m *simMenu, cnt simCounters) []simEvent {
 		if r.timer.active && m.Timeouts && (m.MaxTerm == 0 || r.term < m.MaxTerm || r.state == Leader) {
 			add(simEvent{K: "T", N: n.idx, S: "main", Dev: 1})
 		}
-		if r.state == Leader {
+		if r.ldr != nil {
+			// stateLoop selects on the transfer timers in every state (release stops them when leadership ends)
 			if r.ldr.transfer.timer.active {
 				add(simEvent{K: "T", N: n.idx, S: "transfer", Dev: 1})
 			}
